@@ -230,6 +230,7 @@ def r04_guard(ctx):
 
 def r04_parser(ctx):
     parsershape.check_parser(ctx, 'R04.5')
+    parsershape.tokenizer_semantics(ctx, 'R04.5')
 
 
 def r04_decode(ctx):
